@@ -9,8 +9,15 @@ Streams
            escapes, surrogates in constants, literals beyond CPython's digit limit); the Lean hazard model predicts these
   nest     deep nesting and very long chains
   names    arbitrary file names (and directory names) under the namespace directory, duplicates of one (name, version)
+  constellation   valid definitions whose NAMES meet: a namespace named like a type next to it (and the other way round), types
+           named like the synthetic sections of a service (`Request` / `Response`) inside a namespace named like that
+           service, types named like their own namespace or the root, letter-case variants of directory and type names,
+           further versions of one name (same or other kind), references between them (full, relative, in another letter
+           case, to a section of a service); read with read_namespace, with read_files (all files) or with read_files (one
+           target, the rest reached as dependencies)
 
-Case:    {"kind", "files": [[relative path, text], ...], optional "tree"/"ctx"/"env"/"text" (arith), "names": [basenames]}
+Case:    {"kind", "files": [[relative path, text], ...], optional "tree"/"ctx"/"env"/"text" (arith), "names": [basenames],
+          optional "how": "ns" | "files" | "files1" (entry point, default "ns"), "target": relative path (files1)}
 Outcome: {"cls": "ok" | "invalid" | "internal" | "foreign:<cls>", soft_*}
 Oracle:  the exception class itself: anything but ok / InvalidDefinitionError-with-path is a violation.
 """
@@ -256,6 +263,166 @@ def gen_names(rng: random.Random) -> typing.List[typing.List[str]]:
     return files
 
 
+# ---- name constellations: every file is a valid definition; what is unusual is how the names relate to each other
+
+STEMS = ["Svc", "Msg", "Request", "Response", "ns", "sub", "A", "Bq", "Q"]
+SECTION_NAMES = ["Request", "Response"]
+MESSAGE_BODIES = ["uint8 v\n@sealed\n", "@sealed\n", "uint16 w\n@extent 64\n", "@union\nuint8 a\nfloat16 b\n@sealed\n", "bool[<=9] x\n@extent 1024\n"]
+SERVICE_BODIES = ["uint8 q\n@sealed\n---\n@sealed\n", "@sealed\n---\n@sealed\n", "uint64 a\n@extent 1024\n---\nuint8 b\n@sealed\n", "@extent 64\n---\nuint8 r\n@extent 64\n",
+                  "uint8 q\n@sealed\n---\nuint16 w\n@extent 64\n"]
+
+
+def _case_variant(rng: random.Random, s: str, p: float) -> str:
+    if rng.random() >= p:
+        return s
+    return rng.choice([s.lower(), s.upper(), s.capitalize(), s.swapcase(), s[:1].lower() + s[1:]])
+
+
+def gen_constellation(rng: random.Random) -> dict:
+    pool = rng.sample(STEMS, rng.choice([2, 3, 3, 4]))
+
+    def name() -> str:
+        return _case_variant(rng, rng.choice(pool), 0.15)
+
+    def version_near(v):
+        x = rng.random()
+        if x < 0.6:
+            return v
+        if x < 0.85:
+            return (v[0], rng.choice([0, 1, 2, 3]) if v[0] else rng.choice([1, 2, 3]))
+        return (rng.choice([1, 2]), rng.choice([v[1], 0, 1]))
+
+    def new(dirs, short, ver, service=None, refs=None):
+        service = (rng.random() < 0.4) if service is None else service
+        pid = None
+        if rng.random() < 0.15:
+            pid = rng.choice([300, 256, 383, 300, 100] if service else [7000, 7001, 6200, 6144, 100])   # vendor-specific regulated ranges, and one outside
+        return {"dirs": list(dirs), "short": short, "ver": ver, "service": service, "pid": pid, "ext": ".uavcan" if rng.random() < 0.05 else ".dsdl",
+                "body": rng.choice(SERVICE_BODIES if service else MESSAGE_BODIES), "refs": refs or []}
+
+    def full(d) -> str:
+        return ".".join(["ns"] + d["dirs"] + [d["short"]])
+
+    defs = [new([name() for _ in range(rng.choice([0, 0, 0, 1, 1, 2]))], name(), rng.choice([(0, 1), (0, 2), (1, 0), (1, 0), (1, 0), (1, 1), (1, 3), (2, 0), (2, 1)]))]
+    for _ in range(rng.choice([1, 1, 2, 2, 3, 4])):
+        d = rng.choice(defs)
+        t = rng.choice(["nested", "nested", "lifted", "like-namespace", "case", "version", "sibling", "referrer", "referrer", "twin"])
+        if t == "nested":       # a namespace named like the type d, holding a type named like a section / like d / like anything
+            short = rng.choice([rng.choice(SECTION_NAMES), rng.choice(SECTION_NAMES), d["short"], name()])
+            defs.append(new(d["dirs"] + [_case_variant(rng, d["short"], 0.15)], _case_variant(rng, short, 0.1), version_near(d["ver"])))
+        elif t == "lifted":     # a type named like the namespace d lives in, next to that namespace
+            if d["dirs"]:
+                defs.append(new(d["dirs"][:-1], _case_variant(rng, d["dirs"][-1], 0.15), version_near(d["ver"])))
+            else:
+                defs.append(new([], "ns", version_near(d["ver"])))
+        elif t == "like-namespace":   # a type named like its own namespace
+            defs.append(new(d["dirs"], d["dirs"][-1] if d["dirs"] else "ns", version_near(d["ver"])))
+        elif t == "case":       # the same place in another letter case
+            dirs = [_case_variant(rng, x, 0.5) for x in d["dirs"]]
+            defs.append(new(dirs, _case_variant(rng, d["short"], 0.7), version_near(d["ver"]), service=d["service"] if rng.random() < 0.7 else None))
+        elif t == "version":    # another version of the same name, of the same kind or not
+            v = (d["ver"][0], d["ver"][1] + rng.choice([1, 2])) if rng.random() < 0.7 else (d["ver"][0] + 1, rng.choice([0, d["ver"][1]]))
+            e = new(d["dirs"], d["short"], v, service=d["service"] if rng.random() < 0.75 else None)
+            if rng.random() < 0.7:
+                e["body"], e["pid"] = d["body"], d["pid"]
+            defs.append(e)
+        elif t == "sibling":
+            defs.append(new(d["dirs"], name(), version_near(d["ver"])))
+        elif t == "twin":       # the same (name, version) under another file name
+            if rng.random() < 0.2:
+                e = dict(d)
+                e["twin"] = True
+                e["pid"], e["ext"] = (7000 if d["pid"] is None and not d["service"] else None), rng.choice([".dsdl", ".uavcan"])
+                e["body"] = d["body"] if rng.random() < 0.5 else rng.choice(SERVICE_BODIES if d["service"] else MESSAGE_BODIES)
+                defs.append(e)
+        else:                   # a definition that refers to the others
+            refs = []
+            for _k in range(rng.choice([1, 1, 2])):
+                g = rng.choice(defs)
+                n = full(g)
+                x = rng.random()
+                if x < 0.2:
+                    n = n + "." + rng.choice(SECTION_NAMES)        # the synthetic name of a section
+                elif x < 0.35:
+                    n = _case_variant(rng, n, 1.0)
+                v = g["ver"] if rng.random() < 0.8 else version_near(g["ver"])
+                refs.append([n, v, g["dirs"]])
+            where = rng.choice([d["dirs"], d["dirs"], [], d["dirs"] + [d["short"]]])
+            e = new(where, rng.choice(["Zr", "Zr", name()]), version_near(d["ver"]), service=rng.random() < 0.2)
+            lines = []
+            for i, (n, v, gdirs) in enumerate(refs):
+                if gdirs == e["dirs"] and rng.random() < 0.4:
+                    n = n.rsplit(".", 1)[-1] if n.count(".") == len(gdirs) + 1 else n     # relative reference
+                lines.append("%s.%d.%d%s r%d" % (n, v[0], v[1], rng.choice(["", "", "[<=2]", "[3]"]), i))
+            tail = ["@sealed\n", "@extent 8192\n"]
+            e["body"] = "\n".join(lines) + "\n" + (rng.choice(tail) + "---\n" + rng.choice(tail) if e["service"] else rng.choice(tail))
+            defs.append(e)
+    files = []
+    seen = set()
+    for d in defs:
+        key = (tuple(d["dirs"]), d["short"], d["ver"])
+        if key in seen and not d.get("twin"):
+            continue          # one file per (name, version), except where two are meant
+        seen.add(key)
+        rel = "/".join(["ns"] + d["dirs"] + ["%s%s.%d.%d%s" % ("" if d["pid"] is None else "%d." % d["pid"], d["short"], d["ver"][0], d["ver"][1], d["ext"])])
+        if all(rel != f[0] for f in files):
+            files.append([rel, d["body"]])
+    how = rng.choice(["ns", "ns", "files", "files1"])
+    case = {"kind": "constellation", "files": files, "names": [f[0].rsplit("/", 1)[-1] for f in files], "how": how}
+    if how == "files1":
+        case["target"] = rng.choice(files)[0]
+    return case
+
+
+def definition_key(rel: str):
+    """(namespace path, short name, major, minor) a definition file stands for by its path, or None."""
+    parts = rel.split("/")
+    base = parts[-1]
+    for ext in (".dsdl", ".uavcan"):
+        if base.endswith(ext):
+            comps = base[: -len(ext)].split(".")
+            break
+    else:
+        return None
+    if len(comps) not in (3, 4):
+        return None
+
+    def num(x: str):
+        return int(x) if x.isascii() and x.isdigit() else x
+
+    return ("/".join(parts[:-1]), comps[-3], num(comps[-2]), num(comps[-1]))
+
+
+def same_version_twice(files) -> bool:
+    """Two files of the case define the same (full name, major, minor)."""
+    keys = [k for k in (definition_key(f[0]) for f in files) if k is not None]
+    return len(set(keys)) != len(keys)
+
+
+def constellation_traits(files) -> typing.Set[str]:
+    out = set()
+    keys = [k for k in (definition_key(f[0]) for f in files) if k is not None]
+    fulls = {k[0] + "/" + k[1] for k in keys}
+    dirs = {k[0] for k in keys}
+    services = {f[0].rsplit("/", 1)[0] + "/" + definition_key(f[0])[1] for f in files if definition_key(f[0]) is not None and isinstance(f[1], str) and "\n---" in "\n" + f[1]}
+    if fulls & dirs:
+        out.add("namespace-named-like-a-type")
+    if any(k[1] in SECTION_NAMES and k[0] in services for k in keys):
+        out.add("section-name-inside-namespace-named-like-a-service")
+    if any(k[0].rsplit("/", 1)[-1] == k[1] for k in keys):
+        out.add("type-named-like-its-namespace")
+    low = {}
+    for x in fulls | dirs:
+        low.setdefault(x.lower(), set()).add(x)
+    if any(len(v) > 1 for v in low.values()):
+        out.add("letter-case-variants")
+    if same_version_twice(files):
+        out.add("same-name-and-version-twice")
+    if len({(k[0], k[1]) for k in keys}) < len(set(keys)):
+        out.add("several-versions-of-a-name")
+    return out
+
+
 UNREADABLE = [
     {"hex": "232063616621e90a407365616c65640a"},          # Latin-1 text
     {"hex": "80"}, {"hex": "40736561" + "6c6564e2820a"},  # lone continuation byte, truncated sequence
@@ -284,7 +451,7 @@ def gen_case(rng: random.Random) -> dict:
     x = rng.random()
     if x < 0.03:
         return gen_unreadable(rng)
-    if x < 0.34:
+    if x < 0.31:
         for _ in range(20):
             text = mutate_tokens(rng.choice(BASES), rng)
             if not risky(text):
@@ -292,7 +459,7 @@ def gen_case(rng: random.Random) -> dict:
         else:
             text = BASES[0]
         return {"kind": "tokmut", "files": HELPERS + [["ns/A.1.0.dsdl", text]]}
-    if x < 0.56:
+    if x < 0.51:
         for _ in range(20):
             text = pure_noise(rng) if rng.random() < 0.15 else add_noise(rng.choice(BASES), rng)
             if not risky(text):
@@ -300,14 +467,16 @@ def gen_case(rng: random.Random) -> dict:
         else:
             text = BASES[0]
         return {"kind": "noise", "files": HELPERS + [["ns/A.1.0.dsdl", text]]}
-    if x < 0.82:
+    if x < 0.75:
         tree, ctx = arith_tree(rng)
         case = {"kind": "arith", "tree": tree, "ctx": ctx, "env": []}
         case["text"] = X.render(tree, rng, rng.choice([0.0, 0.2]), rng.choice([0.0, 0.5]))
         case["files"] = HELPERS + [["ns/A.1.0.dsdl", X.dsdl_text(case)]]
         return case
-    if x < 0.87:
+    if x < 0.79:
         return {"kind": "nest", "files": HELPERS + [["ns/A.1.0.dsdl", nest_text(rng)]]}
+    if x < 0.88:
+        return gen_constellation(rng)
     files = gen_names(rng)
     return {"kind": "names", "files": files, "names": [f[0].rsplit("/", 1)[-1] for f in files]}
 
@@ -362,20 +531,30 @@ def nice_origin(origin: str) -> str:
     return origin
 
 
-def run_files(files) -> dict:
-    """Read the namespace `ns` made of `files` the way a user would: default recursion limit, logging silenced."""
+def origin_name(case, impl) -> str:
+    """Name of the place an exception came from.  The name of the known defect F9 (two files define one (name, version))
+    is given only to inputs that do contain two such files: whatever else trips over the same internal check is something else."""
+    name = nice_origin(impl.get("soft_origin", ""))
+    if name == "same-name-and-version-twice" and not same_version_twice(case["files"]):
+        return impl.get("soft_origin", "")
+    return name
+
+
+def run_files(files, how: str = "ns", target: typing.Optional[str] = None) -> dict:
+    """Read the namespace `ns` made of `files` the way a user would: default recursion limit, logging silenced.
+    how: "ns" read_namespace(ns) | "files" read_files(all files, [ns]) | "files1" read_files([target], [ns])."""
     import logging
     import sys
     logging.disable(logging.CRITICAL)
     old = sys.getrecursionlimit()
     sys.setrecursionlimit(1000)
     try:
-        return _run_files(files)
+        return _run_files(files, how, target)
     finally:
         sys.setrecursionlimit(old)
 
 
-def _run_files(files) -> dict:
+def _run_files(files, how: str = "ns", target: typing.Optional[str] = None) -> dict:
     pydsdl = common.import_pydsdl()
     root = X.tmp_root() / "g"
     if root.exists():
@@ -398,7 +577,13 @@ def _run_files(files) -> dict:
     if not ns.exists():
         ns.mkdir()
     try:
-        pydsdl.read_namespace(ns, [], print_output_handler=lambda p, l, t: None)
+        if how == "ns":
+            pydsdl.read_namespace(ns, [], print_output_handler=lambda p, l, t: None)
+        else:
+            rels = [rel for rel, text in files if not isinstance(text, dict)]
+            if how == "files1":
+                rels = [target if target in rels else rels[0]]
+            pydsdl.read_files([root / rel for rel in rels], [ns], [], print_output_handler=lambda p, l, t: None)
         return {"cls": "ok"}
     except pydsdl.InvalidDefinitionError as ex:
         p = getattr(ex, "path", None)
@@ -488,7 +673,7 @@ class GarbageSuite(common.Suite):
 
     def run_impl(self, case):
         try:
-            out = run_files(case["files"])
+            out = run_files(case["files"], case.get("how", "ns"), case.get("target"))
             dep = dependency_path_probe(case["files"])
             if dep is not None:
                 out["dep_path_ok"] = dep[0]
@@ -530,8 +715,8 @@ class GarbageSuite(common.Suite):
                 return "InvalidDefinitionError (%s) without the path of a file of the namespace" % impl.get("soft_exc")
             return None
         if cls == "internal":
-            return "InternalError reached the caller [%s]: %s" % (nice_origin(impl.get("soft_origin", "")), impl.get("soft_msg", "")[-160:])
-        return "%s reached the caller [%s]: %s" % (cls, nice_origin(impl.get("soft_origin", "")), impl.get("soft_msg", "")[:160])
+            return "InternalError reached the caller [%s]: %s" % (origin_name(case, impl), impl.get("soft_msg", "")[-160:])
+        return "%s reached the caller [%s]: %s" % (cls, origin_name(case, impl), impl.get("soft_msg", "")[:160])
 
     def signature(self, case, desc, prop):
         m = re.search(r"\[([^\]]*)\]", desc)
@@ -565,6 +750,11 @@ class GarbageSuite(common.Suite):
                     c["files"] = files[:i] + files[i + 1:]
                     yield c
             return
+        if case.get("how", "ns") != "ns":
+            c = dict(case)
+            c["how"] = "ns"
+            c.pop("target", None)
+            yield c
         # drop files
         if len(files) > 1:
             for i in range(len(files)):
@@ -599,7 +789,11 @@ class GarbageSuite(common.Suite):
         if impl.get("soft_exc"):
             yield "rejected-as:" + impl["soft_exc"]
         if impl.get("soft_origin"):
-            yield "origin:" + nice_origin(impl["soft_origin"])
+            yield "origin:" + origin_name(case, impl)
+        if case["kind"] == "constellation":
+            yield "entry:" + case.get("how", "ns")
+            for t in constellation_traits(case["files"]):
+                yield "constellation:" + t
         text = case["files"][-1][1]
         if isinstance(text, dict):
             yield "unreadable:" + ("directory" if text.get("dir") else "bytes")
